@@ -352,6 +352,10 @@ pub struct NetSpec {
     /// rebinding as seen by the server); None: never
     #[serde(default)]
     pub client_move_at_us: Option<u32>,
+    /// both endpoints live at IPv4 addresses (quinn treats a port-only change of an IPv4 peer as a
+    /// probable NAT rebinding and keeps RTT / congestion state)
+    #[serde(default)]
+    pub ipv4: bool,
 }
 
 impl Default for NetSpec {
@@ -371,6 +375,7 @@ impl Default for NetSpec {
             drv: DrvSpec::default(),
             time_shift_us: 0,
             client_move_at_us: None,
+            ipv4: false,
         }
     }
 }
@@ -550,8 +555,18 @@ impl World {
             client_crypto: None,
             spec,
         };
-        w.add_endpoint(false, vec![addr_v6(1, 5000)]);
-        w.add_endpoint(true, vec![addr_v6(2, 4433)]);
+        // the ledger below is keyed by address; a client that moves (and may be followed, given up and
+        // followed again) needs the per-path ledger of C15
+        if w.spec.client_move_at_us.is_some() {
+            w.check_amp = false;
+        }
+        if w.spec.ipv4 {
+            w.add_endpoint(false, vec![addr_v4(1, 5000)]);
+            w.add_endpoint(true, vec![addr_v4(2, 4433)]);
+        } else {
+            w.add_endpoint(false, vec![addr_v6(1, 5000)]);
+            w.add_endpoint(true, vec![addr_v6(2, 4433)]);
+        }
         w
     }
 
